@@ -10,3 +10,4 @@ INVARIANT SelectOK
 INVARIANT ScaleOK
 INVARIANT WeightOK
 INVARIANT Drift_Refusal
+INVARIANT Drift_ListRepr
